@@ -46,7 +46,6 @@ func H05_roundtrip() {
 	r, err := NewReaderWithCtx2(ibs, ctx)
 	vhAssert(err == nil, "reader-constructed")
 	j := vhInt("probe")
-	vhAssume(vhAnd(j >= 0, j < N))
 	out := make([]byte, M*vhB+R)
 	total := 0
 	eof := false
@@ -64,8 +63,11 @@ func H05_roundtrip() {
 	vhAssert(eof, "reaches-eof")
 	vhAssert(total == N, "output-length-equals-input-length")
 	if N > 0 {
+		vhAssume(vhAnd(j >= 0, j < N))
 		vhAssert(out[j] == data[j], "output-equals-input")
 		vhReach("probe-checked")
+	} else {
+		vhReach("empty-stream-checked")
 	}
 	n2, err2 := r.Read(out[0:R])
 	vhAssert(n2 == 0 && err2 == stdio.EOF, "eof-is-sticky")
